@@ -148,3 +148,53 @@ pub fn compile(
 ) -> Result<(), Vec<Error>> {
     Compiler::new().compile(lua_file, prog, require)
 }
+
+/// Verification hooks: expose the intermediate results of the pipeline as Debug text.
+/// Only compiled with `--cfg sylt_lang_sylt_lang_verif`.
+#[cfg(sylt_lang_sylt_lang_verif)]
+pub mod verif {
+    use super::*;
+
+    /// Debug dumps of every phase that was reached: `(phase name, dump)`, or the errors
+    /// of the phase that failed together with the dumps of the phases before it.
+    pub fn phases(tree: AST) -> (Vec<(&'static str, String)>, Result<(), Vec<Error>>) {
+        let mut out = Vec::new();
+        let mut compiler = Compiler::new();
+        compiler.extract_namespaces(&tree);
+        let (vars, statements) =
+            match name_resolution::resolve(&tree, &compiler.namespace_id_to_file) {
+                Ok(x) => x,
+                Err(errs) => return (out, Err(errs)),
+            };
+        out.push(("vars", format!("{:?}", vars)));
+        out.push(("resolved", format!("{:?}", statements)));
+        let statements = match dependency::initialization_order(&statements) {
+            Ok(statements) => statements,
+            Err(statements) => {
+                out.push((
+                    "cycle",
+                    format!("{:?}", statements.iter().map(|s| s.span()).collect::<Vec<_>>()),
+                ));
+                return (out, Ok(()));
+            }
+        };
+        let mut statements: Vec<Statement> = statements.iter().map(|s| (*s).clone()).collect();
+        statements.sort_by_key(|s| match s {
+            Statement::Blob { .. } | Statement::Enum { .. } => 0,
+            _ => 1,
+        });
+        out.push(("ordered", format!("{:?}", statements)));
+        let typechecker = match typechecker::solve(&vars, &statements, &compiler.namespace_id_to_file)
+        {
+            Ok(x) => x,
+            Err(errs) => return (out, Err(errs)),
+        };
+        let ir = intermediate::compile(&typechecker, &statements);
+        out.push(("ir", format!("{:?}", ir)));
+        let usage_count = intermediate::count_usages(&ir);
+        let mut usage: Vec<_> = usage_count.iter().map(|(k, v)| (k.0, *v)).collect();
+        usage.sort();
+        out.push(("usage", format!("{:?}", usage)));
+        (out, Ok(()))
+    }
+}
